@@ -259,6 +259,10 @@ def exec_stmt(ctx, st, env, cond):
         if isinstance(v, ast.Constant):
             return [Outcome("fall", cond, None, env)]
         env = dict(env)
+        if isinstance(v, ast.Yield):
+            # generator body: the values are collected in order (only straight-line / unrolled code reaches here with a definite order)
+            env["$yield"] = env.get("$yield", ("list",)) + ((ev(ctx, v.value, env) if v.value is not None else T.NONE),)
+            return [Outcome("fall", cond, None, env)]
         if isinstance(v, ast.Call) and isinstance(v.func, ast.Attribute) and isinstance(v.func.value, ast.Attribute) \
                 and isinstance(v.func.value.value, ast.Name) and v.func.value.value.id == "self":
             # self.<field>.append(x) / .extend(seq) on a field that currently holds a literal list
@@ -348,6 +352,11 @@ def fold_bool(c):
             if ma is not None and mb is not None and abs(ma - mb) > 1e-9 * max(ma, mb, 1e-300):
                 r = {"Lt": ma < mb, "LtE": ma <= mb, "Gt": ma > mb, "GtE": ma >= mb}[c[1]]
                 return ("bool", r)
+        if c[1] in ("Lt", "LtE", "Gt", "GtE") and (a[0] != "num" or b[0] != "num"):
+            # two closed constants (numbers, powers of pi): decided numerically unless they are closer than rounding could tell
+            va, vb = const_value(a), const_value(b)
+            if va is not None and vb is not None and abs(va - vb) > 1e-9 * max(abs(va), abs(vb), 1e-300):
+                return ("bool", {"Lt": va < vb, "LtE": va <= vb, "Gt": va > vb, "GtE": va >= vb}[c[1]])
         if a[0] in ("str", "num") and b[0] == a[0]:
             x, y = a[1], b[1]
             try:
@@ -408,6 +417,30 @@ def fold_bool(c):
         if len(names) == len(tys) and all(n in KNOWN_TYPE_NAMES for n in names):
             return ("bool", kind in names)
     return c
+
+
+def const_value(t):
+    """value of a closed constant built from numbers and pi with + * ** (None otherwise)"""
+    import math
+    h = t[0]
+    if h == "num":
+        return float(t[1])
+    if t == T.PI:
+        return math.pi
+    if h in ("add", "mul"):
+        vals = [const_value(x) for x in t[1:]]
+        if any(v is None for v in vals):
+            return None
+        r = 0.0 if h == "add" else 1.0
+        for v in vals:
+            r = r + v if h == "add" else r * v
+        return r
+    if h == "pow" and t[2][0] == "num" and t[2][1].denominator == 1:
+        b = const_value(t[1])
+        if b is None or (b == 0 and t[2][1] < 0):
+            return None
+        return b ** int(t[2][1])
+    return None
 
 
 def const_magnitude(t):
@@ -523,7 +556,7 @@ def merge_phi(c, a, b):
 def iter_items(it):
     """elements of a literal iterable term (list/tuple literal, range/zip/enumerate/reversed of
     literals), or None"""
-    if it[0] in ("tuple", "list"):
+    if it[0] in ("tuple", "list", "gen"):
         return list(it[1:])
     if it[0] == "call" and it[1] == "range" and all(a[0] == "num" and a[1].denominator == 1 for a in it[2:]):
         return [T.num(i) for i in range(*[int(a[1]) for a in it[2:]])]
@@ -698,6 +731,8 @@ def exec_loop(ctx, st, env, cond):
         ast.copy_location(node, st)
         ast.fix_missing_locations(node)
         return exec_stmt(ctx, node, env, cond)
+    if any(isinstance(x, (ast.Yield, ast.YieldFrom)) for b in st.body for x in ast.walk(b)):
+        ctx.gen_unknown = True            # yields inside a loop that is not unrolled: the generated sequence is not a finite list of terms
     ctx.loop_counter += 1
     lid = ctx.loop_counter
     body_assigned = assigned_names(st.body)
@@ -888,6 +923,11 @@ def ev(ctx, node, env):
                 parts.append(("cmp", type(op).__name__, cmpval(left), cmpval(r)))
             left = r
         return parts[0] if len(parts) == 1 else ("and",) + tuple(parts)
+    if isinstance(node, ast.Call) and isinstance(node.func, ast.Name) and node.func.id == "next" and len(node.args) == 1 and not node.keywords \
+            and isinstance(node.args[0], ast.Name) and env.get(node.args[0].id, ("?",))[0] == "gen" and len(env[node.args[0].id]) > 1:
+        g = env[node.args[0].id]
+        env[node.args[0].id] = ("gen",) + tuple(g[2:])       # the generator object advances
+        return g[1]
     if isinstance(node, ast.IfExp):
         c = fold_bool(ev(ctx, node.test, env))
         if c == ("bool", True):
@@ -1094,9 +1134,13 @@ def global_value(ctx, modname, name, gnode):
         # a constant computed once at import time by a refactoring (e.g. sin(Angle(0, 0, 8.794).rad())): folded when it is closed
         try:
             sub = Ctx(ctx.repo, modname)
+            sub.unroll = max(sub.unroll, 80)
+            sub.unroll_while = 80             # a table built at import time by a short loop (halving steps, cumulative sums)
             v = ev(sub, gnode, {})
             if v[0] in ("num", "mul", "add", "call", "pow", "angle", "epoch") and not any(x[0] in ("sym", "opaque", "lt", "lv") and x != T.PI
                                                                                           and not (x[0] == "sym" and x[1] in ("d2r", "pi")) for x in T.walk(v)):
+                return v
+            if v[0] in ("tuple", "list") and 0 < len(v) - 1 <= 128 and all(const_value(x) is not None for x in v[1:]):
                 return v
         except AnalysisError:
             pass
@@ -1627,8 +1671,21 @@ def inline_repo(ctx, tgt, fn, args, kws, star_kw, env):
         for k, v in falls[0].env.items():
             if isinstance(k, str) and k.startswith("self.") and cenv.get("self") == T.sym("self"):
                 env[k] = v
+    if any(isinstance(x, (ast.Yield, ast.YieldFrom)) for x in ast.walk(fn)):
+        return _generator_value(sub, outs)
     t = return_term(outs)
     return T.NONE if t is None else t
+
+
+def _generator_value(ctx, outs):
+    """('gen', v1, v2, ...) for a generator function whose yields were all reached in a definite order, else an opaque call"""
+    unknown = getattr(ctx, "gen_unknown", False)
+    ctx.gen_unknown = False
+    ends = [o for o in outs if o.kind in ("fall", "ret")]
+    if unknown or len(ends) != 1 or ends[0].cond != T.land() and ends[0].cond != ("bool", True):
+        ctx.opaque_count += 1
+        return T.call("generator", T.num(ctx.opaque_count))
+    return ("gen",) + tuple(ends[0].env.get("$yield", ("list",))[1:])
 
 
 def _positionalise(ctx, tgt, args, kws):
